@@ -235,19 +235,36 @@ def selective_leaf(rng, kinds, e2e, dist, rare=False):
 
 
 def broad_leaf(rng, kinds, e2e, dist, total):
-    """a leaf that matches MOST documents: complements of selective leaves, open bounds, frequent values"""
+    """a leaf that matches MOST or MANY documents: open bounds (everything that has a value), bounds in the middle
+    and the frequent values of a skewed catalog (a large part - a later selective operand is then usually NOT a
+    subset), complements of frequent / of rare values"""
     t = selective_leaf(rng, kinds, e2e, dist, rare=True)
     i = t[2]
     k = kinds[i]
     r = rng.random()
-    if k == "field" and r < 0.35:
+    skew = dist and dist.skew and k in dist.n
+    if k == "field" and r < 0.2:
         n = _nv(kinds, i, e2e, dist)
         return rng.choice([["cmp", "ge", i, "one", rng.randrange(0, 2)], ["cmp", "le", i, "one", n - 1 - rng.randrange(0, 2)],
                            ["cmp", "gt", i, "one", -1], ["range", 0, i, 0, n, 0, 0]])
-    if dist and dist.skew and k in dist.n and r < 0.55:
+    if k == "field" and r < 0.45:
+        n = _nv(kinds, i, e2e, dist)
+        m = rng.randrange(n // 4, 3 * n // 4 + 1)
+        return rng.choice([["cmp", "ge", i, "one", m], ["cmp", "lt", i, "one", m], ["cmp", "le", i, "one", m],
+                           ["range", rng.randrange(2), i, n // 4, m, 0, 1]])
+    if skew and r < 0.55:
         return ["cmp", "any", i, "many", sorted(set(dist.frequent(rng, k) for _ in range(3)))]
-    # NotEq / NotAny / NotInRange answer with the index's whole population minus a few (on a non-Total catalog
-    # that includes value-less documents: still an And/Or clause the specification determines)
+    if skew and r < 0.67:
+        # one frequent value: on a keyword index the answer IS the stored posting set (an operation that updated
+        # its bigger operand in place would corrupt the index for the queries that follow)
+        return rng.choice([["cmp", "eq", i, "one", dist.perm[k][0]], ["cmp", "eq", i, "one", dist.frequent(rng, k)],
+                           ["cmp", "all" if k != "field" else "eq", i, "many" if k != "field" else "one",
+                            [dist.perm[k][0]] if k != "field" else dist.perm[k][0]]])
+    if skew and r < 0.8:
+        return rng.choice([["cmp", "noteq", i, "one", dist.frequent(rng, k)],
+                           ["cmp", "notany", i, "many", [dist.frequent(rng, k), dist.rare(rng, k)]]])
+    # NotEq / NotAny / NotInRange of a selective leaf: the index's whole population minus a few (on a non-Total
+    # catalog that includes value-less documents: still an And/Or clause the specification determines)
     return neg_tree(t)
 
 
@@ -297,6 +314,15 @@ def gen_skew(rng, kinds, total, e2e=False, dist=None):
     """And / Or of 2-5 operands of very different sizes in random order (the small operand first, last, in the
     middle): broad leaves and selective leaves over rare values"""
     op = rng.choice(["and", "and", "or"])
+    stored = [i for i, k in enumerate(kinds) if k in ("keyword", "facet")]
+    if dist and dist.skew and stored and rng.random() < 0.25:
+        # the first operand's answer is a stored posting set (Eq / All of one frequent keyword), the operands after
+        # it are tiny: whatever combines them must not write into its bigger operand
+        i = rng.choice(stored)
+        v = dist.perm["keyword"][0] if kinds[i] == "keyword" else rng.randrange(_nv(kinds, i, e2e, dist))
+        first = rng.choice([["cmp", "eq", i, "one", v], ["cmp", "all", i, "many", [v]]])
+        op = rng.choice(["and", "or", "or"])
+        return [op, [first] + [selective_leaf(rng, kinds, e2e, dist, rare=True) for _ in range(rng.choice([1, 2, 3]))]]
     nb, ns = rng.choice([(1, 1), (1, 1), (2, 1), (1, 2), (3, 1), (2, 2), (1, 0), (3, 2)])
     kids = [broad_leaf(rng, kinds, e2e, dist, total) for _ in range(nb)] + \
            [selective_leaf(rng, kinds, e2e, dist, rare=True) for _ in range(ns)]
